@@ -21,9 +21,9 @@ ASSUMPTIONS = [
     "reference matcher + hand-written operand table are the trusted base",
     "listings <= 12 instructions; windows <= 5 instructions",
 ]
-LEVELS = ["inst", "inst", "operand", "operand", "deref-or", "or-prefix", "anyorder-dup", "anyorder-varlen", "operand-deref-mix", "operand-deref-mix", "same-op-nested", "operand-or-hexh"]
+LEVELS = ["inst", "inst", "operand", "operand", "deref-or", "or-prefix", "anyorder-dup", "anyorder-varlen", "operand-deref-mix", "operand-deref-mix", "same-op-nested", "operand-or-hexh", "leading-optionals", "mapping-form"]
 MUTATORS = ["none", "none", "none", "insert-copy", "insert-new", "delete", "replace-copy", "swap", "op-permute", "op-replace"]
-FLOORS = {"level=inst": 0.12, "level=operand": 0.12, "level=deref-or": 0.08, "level=or-prefix": 0.06, "level=anyorder-dup": 0.06, "level=anyorder-varlen": 0.06, "level=operand-deref-mix": 0.08, "level=same-op-nested": 0.05, "level=operand-or-hexh": 0.04, "deref-inside-operand-operator": 0.02, "expect=found": 0.25, "near-miss": 0.25, "nested": 0.2}
+FLOORS = {"level=inst": 0.12, "level=operand": 0.12, "level=deref-or": 0.08, "level=or-prefix": 0.06, "level=anyorder-dup": 0.06, "level=anyorder-varlen": 0.06, "level=operand-deref-mix": 0.08, "level=same-op-nested": 0.05, "level=operand-or-hexh": 0.04, "level=leading-optionals": 0.04, "children-as-mapping": 0.04, "deref-operator-as-mapping": 0.02, "deref-inside-operand-operator": 0.015, "expect=found": 0.25, "near-miss": 0.25, "nested": 0.2}
 
 
 def budget(tier):
@@ -60,7 +60,7 @@ def _names_ok(node, operand=False):
             if k in ("$or", "$and", "$and_any_order"):
                 if not _names_ok(v, operand):
                     return False
-            elif k == "$deref":
+            elif k in ("$deref", "times"):
                 continue
             else:
                 if not lit_ok(str(k), operand=False):
@@ -83,6 +83,74 @@ def cases(draw, max_depth=2):
         i = draw(st.integers(0, n - 1))
         j = draw(st.integers(i + 1, min(n, i + 5)))
         pattern = describe_window(draw, NV, i, j, full, allow=frozenset({"$and", "$or", "$and_any_order"}), max_depth=max_depth + 1)
+    elif level == "leading-optionals":
+        # an alternative (or a group) that BEGINS with children that may match nothing - items with times min 0 whose instruction
+        # is absent - followed by the mandatory rest: alternation / sequence / permutation must compose with such children too
+        wlen = draw(st.integers(1, min(3, n)))
+        i = draw(st.integers(0, n - wlen))
+        j = i + wlen
+        descs = [describe_inst(draw, NV[k], full) for k in range(i, j)]
+        absent = ["endbr64", "zzq", "int3", "hlt", "ud2", "fnop"]
+        opts = []
+        for nm in draw(st.lists(st.sampled_from(absent), min_size=1, max_size=3, unique=True)):
+            t = draw(st.sampled_from([{"min": 0, "max": 1}, {"min": 0, "max": 3}, 0, {"min": 0, "max": 0}]))
+            opts.append({nm: {"times": t}} if draw(st.booleans()) else {"$or": [nm, nm + "x"], "times": t})
+        # sometimes one of the optional children is present after all (an instruction inserted in front of the window)
+        if draw(st.integers(0, 3)) == 0:
+            nm = list(opts[-1])[0]
+            if not nm.startswith("$") and opts[-1][nm]["times"] not in (0, {"min": 0, "max": 0}):
+                L.insert(i, ["0", nm, [], []])
+                NV = norm_view(L)
+                n = len(L)
+                j += 1
+        grp = {"$and": opts + descs}
+        decoy = describe_inst(draw, NV[draw(st.integers(0, n - 1))], full) if draw(st.booleans()) else "enter"
+        alts = [grp, decoy] if draw(st.booleans()) else [decoy, grp]
+        how = draw(st.sampled_from(["or", "or", "or-in-anyorder", "plain-and"]))
+        if how == "or":
+            pattern = [{"$or": alts}]
+        elif how == "plain-and":
+            pattern = [grp]
+        else:
+            pattern = [{"$and_any_order": [{"$or": alts}]}]
+        if j < n and draw(st.booleans()):
+            pattern.append(describe_inst(draw, NV[j], full))
+            j += 1
+    elif level == "mapping-form":
+        # a window whose items all have an operand list and different names: the children of the sequence (of the whole pattern, of
+        # a nested group) can then be written as a YAML mapping - same items, written order
+        wlen = draw(st.integers(2, min(4, n)))
+        i = draw(st.integers(0, n - wlen))
+        j = i + wlen
+        descs = []
+        for k in range(i, j):
+            it = describe_inst(draw, NV[k], full, force_ops=True)
+            descs.append(it if isinstance(it, dict) else {it: []})
+        assume(len({list(x)[0] for x in descs}) == len(descs))
+        how = draw(st.sampled_from(["top", "and", "nested", "or-of-and", "anyorder"]))
+        merged = {}
+        for x in descs:
+            merged.update(x)
+        if how == "top":
+            pattern = merged
+        elif how == "and":
+            pattern = [{"$and": merged}]
+        elif how == "nested" and wlen >= 3:
+            inner = {}
+            for x in descs[:2]:
+                inner.update(x)
+            outer = {"$and": inner}
+            for x in descs[2:]:
+                outer.update(x)
+            pattern = [{"$and": outer}]
+        elif how == "anyorder":
+            perm = draw(st.permutations(descs))
+            merged = {}
+            for x in perm:
+                merged.update(x)
+            pattern = [{"$and_any_order": merged}]
+        else:
+            pattern = [{"$or": [{"$and": merged}, "zzq"]}]
     elif level == "or-prefix":
         # $or whose alternatives are prefixes of one another, followed by something only one of them leaves room for
         wlen = draw(st.integers(2, min(4, n)))
@@ -308,7 +376,9 @@ def cases(draw, max_depth=2):
                 good = "-" + str(good)[3:]  # a negative constant may be written without 0x inside an alternative as well
         alts = list(decoys)
         alts.insert(draw(st.integers(0, len(alts))), good)
-        fields[which] = [{"$or": alts}]
+        # the operator as one-element list (`main_reg:` / `  - $or: [...]`) or as the value itself (`main_reg:` / `  $or: [...]`, F36)
+        as_mapping = draw(st.booleans())
+        fields[which] = {"$or": alts} if as_mapping else [{"$or": alts}]
         pre = []
         for o in NV[k][2][:q]:
             from vlib.gen_pattern import describe_operand
@@ -362,7 +432,48 @@ def cases(draw, max_depth=2):
         assume(_names_ok([{hn: head[hn][:-1]} if head[hn][:-1] else hn] + pattern[1:]))
     else:
         assume(_names_ok(pattern))
+    if level in ("inst", "or-prefix", "same-op-nested", "anyorder-dup") and draw(st.integers(0, 2)) == 0:
+        # the children of a group (or of the whole pattern) written as a YAML mapping instead of a list of one-key items: accepted
+        # spelling, same items in the written order
+        pattern = _as_mapping(draw, pattern, top=True)
     return {"level": level, "mut": mut, "listing": L, "pattern": pattern, "flags": list(full)}
+
+
+def _as_mapping(draw, node, top=False):
+    """Rewrite lists of children into mappings where the spelling is possible: every child a one-key item with an operand list (or a
+    nested operator without times), all keys different."""
+    if isinstance(node, list):
+        kids = [_as_mapping(draw, x) for x in node]
+        ok = len(kids) >= 2 and all(isinstance(x, dict) and len(x) == 1 and isinstance(list(x.values())[0], (list, dict)) and "$deref" not in x for x in kids)
+        ok = ok and len({list(x)[0] for x in kids}) == len(kids)
+        ok = ok and not any(isinstance(v, dict) and "times" in v for x in kids for v in x.values())
+        if ok and (top or True) and draw(st.booleans()):
+            out = {}
+            for x in kids:
+                out.update(x)
+            return out
+        return kids
+    if isinstance(node, dict):
+        out = {}
+        for k, v in node.items():
+            if k in ("$and", "$or", "$and_any_order") and isinstance(v, list):
+                out[k] = _as_mapping(draw, v)
+            else:
+                out[k] = v
+        return out
+    return node
+
+
+def _has_mapping_children(node):
+    if isinstance(node, list):
+        return any(_has_mapping_children(x) for x in node)
+    if isinstance(node, dict):
+        for k, v in node.items():
+            if k in ("$and", "$or", "$and_any_order") and isinstance(v, dict):
+                return True
+            if isinstance(v, (list, dict)) and k != "$deref" and _has_mapping_children(v):
+                return True
+    return False
 
 
 def strategy(tier):
@@ -419,6 +530,11 @@ def evaluate(case):
     ev.tags += [f"op={u}" for u in sorted(used)]
     if depth >= 2:
         ev.tags.append("nested")
+    if isinstance(pattern, dict) or _has_mapping_children(pattern):
+        ev.tags.append("children-as-mapping")
+    if any(isinstance(f_, dict) for it in (pattern if isinstance(pattern, list) else []) if isinstance(it, dict) for p_ in (it[list(it)[0]] or []) if isinstance(p_, dict) and "$deref" in p_
+           for f_ in p_["$deref"].values()):
+        ev.tags.append("deref-operator-as-mapping")
     if case["level"] == "operand-deref-mix" and any(isinstance(p_, dict) and list(p_)[0] in ("$and", "$and_any_order") and any(isinstance(c_, dict) and "$deref" in c_ for c_ in p_[list(p_)[0]])
                                                     for it in pattern if isinstance(it, dict) for p_ in (it[list(it)[0]] or [])):
         ev.tags.append("deref-inside-operand-operator")
